@@ -722,6 +722,170 @@ func pooledEscapes(p *an.Prog, want func(*ssa.Function) bool) (out []string, n i
 	return out, n
 }
 
+// lockCopies: a struct that holds a sync.Mutex, RWMutex, WaitGroup, Once or Cond by value is never copied: no method has
+// it as a value receiver, no whole-struct load copies it (what `go vet -copylocks` reports; the project runs its suite
+// with -vet=off). The copy has its own lock — whoever locks it excludes nobody — and, taken while the original is
+// locked, stays locked for ever.
+func lockCopies(p *an.Prog, want func(*ssa.Function) bool) (out []string, n int) {
+	var holdsLock func(t types.Type, depth int) bool
+	holdsLock = func(t types.Type, depth int) bool {
+		if depth > 4 {
+			return false
+		}
+		if nm, ok := t.(*types.Named); ok && nm.Obj().Pkg() != nil && nm.Obj().Pkg().Path() == "sync" {
+			switch nm.Obj().Name() {
+			case "Mutex", "RWMutex", "WaitGroup", "Once", "Cond", "Map", "Pool":
+				return true
+			}
+		}
+		st, ok := t.Underlying().(*types.Struct)
+		if !ok {
+			return false
+		}
+		for i := 0; i < st.NumFields(); i++ {
+			if holdsLock(st.Field(i).Type(), depth+1) {
+				return true
+			}
+		}
+		return false
+	}
+	for _, fn := range p.Repo {
+		if p.IsTestFunc(fn) || isTestDoublePkg(fn) || !want(fn) || fn.Synthetic != "" {
+			continue
+		}
+		n++
+		if rc := fn.Signature.Recv(); rc != nil && fn.Parent() == nil {
+			if _, isPtr := rc.Type().(*types.Pointer); !isPtr && holdsLock(rc.Type(), 0) {
+				out = append(out, an.FuncName(fn)+" has a value receiver of a type that holds a lock: every call works on a copy of the object, lock included")
+			}
+		}
+		an.AllInstrs(fn, func(in ssa.Instruction) {
+			u, ok := in.(*ssa.UnOp)
+			if !ok || u.Op != token.MUL {
+				return
+			}
+			if _, isStruct := u.Type().Underlying().(*types.Struct); !isStruct || !holdsLock(u.Type(), 0) {
+				return
+			}
+			out = append(out, an.FuncName(fn)+" copies a "+types.TypeString(u.Type(), nil)+" (which holds a lock) at "+p.Pos(u.Pos()))
+		})
+	}
+	return out, n
+}
+
+// paramBackingWrites: the in-place filter idiom r := xs[:0]; r = append(r, x) writes into the backing array of xs. On a
+// slice PARAMETER that is the caller's array: unless every caller drops its own slice in favour of the result, the
+// caller goes on reading elements that have been overwritten (a "which of the invalid peers are still listed" helper
+// written this way for a log line reorders and duplicates the invalid list that is sent to the agent afterwards).
+// Flagged: append whose destination is a re-slice, shorter at the front (x[:k]), of a slice parameter of the function,
+// when some caller uses the argument it passed after the call.
+func paramBackingWrites(p *an.Prog, want func(*ssa.Function) bool) (out []string, n int) {
+	for _, fn := range p.Repo {
+		if p.IsTestFunc(fn) || isTestDoublePkg(fn) || !want(fn) || fn.Parent() != nil {
+			continue
+		}
+		for _, c := range an.Calls(fn, false) {
+			b, ok := c.Common().Value.(*ssa.Builtin)
+			if !ok || an.Ident(b.Name()) != "append" || len(c.Common().Args) == 0 {
+				continue
+			}
+			// destination: phi over (param[:k], append results)
+			var prm *ssa.Parameter
+			seen := map[ssa.Value]bool{}
+			var walk func(v ssa.Value)
+			walk = func(v ssa.Value) {
+				if v == nil || seen[v] {
+					return
+				}
+				seen[v] = true
+				switch t := v.(type) {
+				case *ssa.Phi:
+					for _, e := range t.Edges {
+						walk(e)
+					}
+				case *ssa.Slice:
+					if pp, isP := t.X.(*ssa.Parameter); isP && t.High != nil {
+						prm = pp
+					}
+				case *ssa.Call:
+					if bb, ok := t.Call.Value.(*ssa.Builtin); ok && an.Ident(bb.Name()) == "append" {
+						walk(t.Call.Args[0])
+					}
+				}
+			}
+			walk(c.Common().Args[0])
+			if prm == nil {
+				continue
+			}
+			n++
+			idx := -1
+			for i, x := range fn.Params {
+				if x == prm {
+					idx = i
+				}
+			}
+			for _, site := range p.StaticSites(fn) {
+				if idx < 0 || idx >= len(site.Common().Args) || p.IsTestFunc(site.Parent()) {
+					continue
+				}
+				arg := site.Common().Args[idx]
+				// is the argument used after the call?
+				usedAfter := false
+				if arg.Referrers() != nil {
+					for _, ref := range *arg.Referrers() {
+						if ref == site.(ssa.Instruction) {
+							continue
+						}
+						if an.PathAvoiding(site.Parent(), site.(ssa.Instruction), nil, func(x ssa.Instruction) bool { return x == ref }, nil) != nil {
+							usedAfter = true
+						}
+					}
+				}
+				if usedAfter {
+					out = append(out, an.FuncName(fn)+" appends into a re-slice of its parameter "+prm.Name()+" ("+p.Pos(c.Pos())+"), i.e. into its caller's array; "+an.FuncName(site.Parent())+" goes on using the slice it passed after the call at "+p.Pos(site.Pos())+": its elements have been overwritten")
+				}
+			}
+		}
+	}
+	return out, n
+}
+
+// impureStringers: the methods the fmt / log / json machinery calls on a value it is asked to render — String, Error,
+// GoString, Format, MarshalJSON, MarshalText — leave the value alone. One that writes through its pointer receiver (or a
+// pointer converted from it) changes the object every time somebody logs it: with logging on, the program computes with
+// other values than with logging off.
+func impureStringers(p *an.Prog, want func(*ssa.Function) bool) (out []string, n int) {
+	names := map[string]bool{"String": true, "Error": true, "GoString": true, "Format": true, "MarshalJSON": true, "MarshalText": true}
+	for _, fn := range p.Repo {
+		if p.IsTestFunc(fn) || isTestDoublePkg(fn) || !want(fn) || fn.Parent() != nil || fn.Signature.Recv() == nil || !names[fn.Name()] || len(fn.Params) == 0 {
+			continue
+		}
+		if _, isPtr := fn.Signature.Recv().Type().(*types.Pointer); !isPtr {
+			continue
+		}
+		n++
+		recv := fn.Params[0]
+		for _, w := range writesOf(fn) {
+			root := w.Root
+			for {
+				if ct, ok := root.(*ssa.ChangeType); ok {
+					root = ct.X
+					continue
+				}
+				if cv, ok := root.(*ssa.Convert); ok {
+					root = cv.X
+					continue
+				}
+				break
+			}
+			if root == ssa.Value(recv) {
+				out = append(out, an.FuncName(fn)+" writes to its receiver at "+p.Pos(w.In.Pos())+" ("+w.Kind+"): rendering the value for a log line changes it")
+			}
+		}
+	}
+	return out, n
+}
+
 // RunGeneric evaluates the generic discipline rules for one property over its scope.
 func RunGeneric(prop string, p *an.Prog, r *an.Run) {
 	pk := genericScope[prop]
@@ -750,12 +914,66 @@ func RunGeneric(prop string, p *an.Prog, r *an.Run) {
 			rl = append(rl, an.FuncName(fn)+" acquires "+string(x.Key)+" "+via+" at "+p.Pos(x.At.Pos())+" while already holding it: sync mutexes are not reentrant, the goroutine blocks on itself and every other user of the mutex behind it")
 		}
 	}
+	// ... and through formatting: a value handed to a fmt/log style call (variadic ...interface{}) is rendered by its
+	// String / Error / Format / GoString / MarshalJSON / MarshalText method; when that method takes a lock the caller
+	// holds, the log line never returns (and the lock stays taken)
+	for _, fn := range p.Repo {
+		if p.IsTestFunc(fn) || isTestDoublePkg(fn) || !scopeWant(pk)(fn) {
+			continue
+		}
+		li := an.Locksets(fn, nil)
+		for _, c := range an.Calls(fn, false) {
+			h := li.Before[c.(ssa.Instruction)]
+			if len(h) == 0 || len(c.Common().Args) == 0 {
+				continue
+			}
+			if _, isGo := c.(*ssa.Go); isGo {
+				continue
+			}
+			els, ok := variadicElems(c.Common().Args[len(c.Common().Args)-1])
+			if !ok {
+				continue
+			}
+			for _, e := range els {
+				mi, ok := e.(*ssa.MakeInterface)
+				if !ok {
+					continue
+				}
+				mset := types.NewMethodSet(mi.X.Type())
+				for _, name := range []string{"String", "Error", "Format", "GoString", "MarshalJSON", "MarshalText"} {
+					sel := mset.Lookup(nil, name)
+					if sel == nil {
+						continue
+					}
+					mf := p.SSA.FuncValue(sel.Obj().(*types.Func))
+					if mf == nil || !p.InRepo(mf) {
+						continue
+					}
+					for k, w := range p.AcquiresOf(mf, 3) {
+						tk, ok := an.TranslateKey(k, []ssa.Value{mi.X})
+						if !ok {
+							continue
+						}
+						if hw, held := h[tk]; held && (hw || w) {
+							rl = append(rl, an.FuncName(fn)+" formats a value at "+p.Pos(c.Pos())+" whose "+name+" method ("+an.FuncName(mf)+") takes "+string(tk)+", which is held at that point: the goroutine blocks on itself as soon as the line is actually rendered")
+						}
+					}
+				}
+			}
+		}
+	}
 	sort.Strings(rl)
 	r.Check(len(rl) == 0 && nLockFns > 0, "no-relock", strings.Join(pk, ","), token.NoPos, "no mutex is acquired by a goroutine that already holds it", "%s", strings.Join(dedup(rl), "; "))
 	sr, _ := sharedResults(p, scopeWant(pk))
 	r.Check(len(sr) == 0, "shared-result", strings.Join(pk, ","), token.NoPos, "no method of a lock-guarded type returns the guarded storage itself", "%s", strings.Join(sr, "; "))
 	pe, _ := pooledEscapes(p, scopeWant(pk))
 	r.Check(len(pe) == 0, "pooled-escape", strings.Join(pk, ","), token.NoPos, "nothing that points into a pooled object outlives the function that puts it back", "%s", strings.Join(dedup(pe), "; "))
+	lc, _ := lockCopies(p, scopeWant(pk))
+	r.Check(len(lc) == 0, "lock-copy", strings.Join(pk, ","), token.NoPos, "no object that holds a lock is copied", "%s", strings.Join(dedup(lc), "; "))
+	pb, _ := paramBackingWrites(p, scopeWant(pk))
+	r.Check(len(pb) == 0, "param-backing-write", strings.Join(pk, ","), token.NoPos, "no helper filters its caller's slice in place while the caller still uses it", "%s", strings.Join(dedup(pb), "; "))
+	is, _ := impureStringers(p, scopeWant(pk))
+	r.Check(len(is) == 0, "pure-stringer", strings.Join(pk, ","), token.NoPos, "String/Error/Marshal methods do not write to their receiver", "%s", strings.Join(dedup(is), "; "))
 	tc, _ := trimCutsetMisuse(p, scopeWant(pk))
 	r.Check(len(tc) == 0, "trim-cutset", strings.Join(pk, ","), token.NoPos, "no Trim/TrimLeft/TrimRight is given a word for a cutset", "%s", strings.Join(tc, "; "))
 	r.Check(len(ex) == 0, "loop-visits-all", strings.Join(pk, ","), token.NoPos, "effectful collection loops are left early only under a count bound", "%s", strings.Join(ex, "; "))
